@@ -56,6 +56,13 @@ CLAIMED.update({
          "Trusted: go/ssa, symgo, memory.Storage executed as SSA, fmt.Sscanf run natively on concrete command lines, z3. Outside: concurrent pushes, hooks, pack reception, more than CMDS commands."),
 })
 
+CLAIMED.update({
+ "C09": ("Bounded solver verdict with the inflater replaced by a nondeterministic transducer (consumes any <= ZIN bytes, yields any <= ZOUT bytes, may report corruption) and SHA-1 by an uninterpreted function: for every one-entry pack whose bytes after the pack header are symbolic, whatever packfile.Scanner delivers is consistent — declared size == inflated size, no object from a truncated or corrupt stream, object id = H(\"<type> <size>\\0\" + content), OFS base strictly inside (0, offset), and a trailer is accepted only if it is the hash of every preceding byte; "
+         "BoundedReadCloser/boundedWriter never pass more than the limit under any chunking and report overrun; checkDeltaChainDepth accepts iff the true depth (uncached links + an arbitrary cached depth) is <= 4095 (inductive); "
+         "Parser.Parse over a two-entry pack (base + arbitrary second entry, typically an OFS/REF delta on it) reports only objects named by the hash of their content, a delta's content being git's patch_delta of the base it names. One genuine defect (short inflate accepted) was found this way and repaired.",
+         "Trusted: go/ssa, symgo, the transducer contract (over-approximates zlib; with the RFC 1950 header check in the parser harness), recording hashes, CRC-32 as an uninterpreted function, the patch-delta transcription shared with C06, z3. Outside: entry headers with more than HC continuation bytes, packs with more than two entries, seekable (re-inflating) sources in the parser harness, thin packs resolved against a storage, bit-level zlib/SHA-1, comparison with the git binary."),
+})
+
 NA_REASON = {
  "C05": "needs the real SHA-1 compression function on published collision blocks and Go's cross-package init order; the hash is necessarily an uninterpreted stub under symbolic execution",
  "C11": "read paths = OS filesystem + real zlib + caches over histories; solver-sized pieces are claimed under C06/C09/C10/C24",
